@@ -427,7 +427,19 @@ func TestDrive(t *testing.T) {
 				"ops": sc.ops, "steps_recorded": len(o.steps), "ended": o.ended, "leak": o.leak})
 		}
 	}
-	meta["cases"], meta["distribution"], meta["samples"] = len(scripts), dist, samples
+	// C02 also covers the command's result pump and signal handling: interrupt the real command once
+	ncli := 0
+	if prop == "2" && only == "" {
+		for i := 0; i < 4; i++ {
+			if line, ok := cliSignalCase(prop, i, seed); ok {
+				fmt.Fprintln(bw, line)
+				dist["cli/interrupt-once"]++
+				ncli++
+			}
+		}
+	}
+	meta["cli_cases"] = ncli
+	meta["cases"], meta["distribution"], meta["samples"] = len(scripts)+ncli, dist, samples
 	if mp := os.Getenv("VH_META"); mp != "" {
 		b, _ := json.MarshalIndent(meta, "", " ")
 		os.WriteFile(mp, b, 0o644)
